@@ -296,7 +296,7 @@ class Asm:
         return E()
 
     def lookup_local(self, node, name):
-        d = self.locals.get((node.lscope, name.lower()))
+        d = self.locals.get((node.lscope, name.lower().rstrip(":")))
         if d is None:
             raise AsmError("undefined-symbol", name)
         return self.addr(d)
